@@ -26,7 +26,9 @@
 // arguments stands in every position where its value fits — in particular directly as the sequence of
 // a for loop, as a condition, as a set value and as an argument. There is no counter to look at, so the
 // observation is the output: the render must fail with a security violation and nothing of the
-// built-in's result may have been written below the sandbox boundary.
+// built-in's result may have been written below the sandbox boundary. Its function usages are extended
+// by probing the tree under test (discoverFunctions): every name a fresh engine can call as a function
+// without a usage written for it here — count, which the evaluator serves without a registered function.
 package main
 
 import (
@@ -36,6 +38,7 @@ import (
 	"regexp"
 	"sort"
 	"strings"
+	"sync"
 
 	"github.com/semihalev/twig"
 
@@ -754,6 +757,9 @@ type usage struct {
 	falsy      bool   // the value is false in a condition
 	applyText  string // filters without arguments that take text: {% apply name %}applyText{% endapply %} …
 	applyOut   string // … renders this
+	numeric    bool   // the value is a small non-negative integer (can stand as a bound of range(…))
+	probed     bool   // found by probing a fresh engine (discoverFunctions); out / falsy are what the unsandboxed engine gives
+	first      bool   // probed usages: the first fitting argument shape of its name (the only one kept at depth 3)
 }
 
 func (u usage) expression() string {
@@ -764,6 +770,9 @@ func (u usage) expression() string {
 }
 
 func (u usage) label() string {
+	if u.probed {
+		return "function " + u.name + " (not among the hand-written usages; found callable by probing a fresh engine) as " + u.expr
+	}
 	if u.fn {
 		return "built-in function " + u.name + " as " + u.expr
 	}
@@ -775,15 +784,15 @@ var usages = []usage{
 	{id: "range3", name: "range", fn: true, expr: "range(3, 9, 3)", kind: 'l', out: "369"},
 	{id: "cycle", name: "cycle", fn: true, expr: "cycle(['p', 'q'], 1)", kind: 's', out: "q"},
 	{id: "date", name: "date", fn: true, expr: "date('2020-01-02')", kind: 'o', out: "2020"},
-	{id: "min", name: "min", fn: true, expr: "min(55, 44)", kind: 's', out: "44"},
-	{id: "max", name: "max", fn: true, expr: "max(66, 77)", kind: 's', out: "77"},
-	{id: "length", name: "length", fn: true, expr: "length('abcde')", kind: 's', out: "5"},
+	{id: "min", name: "min", fn: true, expr: "min(55, 44)", kind: 's', out: "44", numeric: true},
+	{id: "max", name: "max", fn: true, expr: "max(66, 77)", kind: 's', out: "77", numeric: true},
+	{id: "length", name: "length", fn: true, expr: "length('abcde')", kind: 's', out: "5", numeric: true},
 	{id: "merge", name: "merge", fn: true, expr: "merge(['p'], ['q'])", kind: 'l', out: "pq"},
-	{id: "random", name: "random", fn: true, expr: "random(1)", kind: 's', out: "0", falsy: true}, // 0 ≤ random(1) < 1
+	{id: "random", name: "random", fn: true, expr: "random(1)", kind: 's', out: "0", falsy: true, numeric: true}, // 0 ≤ random(1) < 1
 
 	{id: "default", name: "default", base: "null", call: "default('dflt')", kind: 's', out: "dflt"},
 	{id: "join", name: "join", base: "['p', 'q']", call: "join('-')", kind: 's', out: "p-q"},
-	{id: "length", name: "length", base: "'abcde'", call: "length", kind: 's', out: "5", applyText: "abcde", applyOut: "5"},
+	{id: "length", name: "length", base: "'abcde'", call: "length", kind: 's', out: "5", applyText: "abcde", applyOut: "5", numeric: true},
 	{id: "slice-s", name: "slice", base: "'pqr'", call: "slice(0, 2)", kind: 's', out: "pq"},
 	{id: "slice-l", name: "slice", base: "['p', 'q', 'r']", call: "slice(0, 2)", kind: 'l', out: "pq"},
 	{id: "first", name: "first", base: "['p', 'q']", call: "first", kind: 's', out: "p", applyText: "pqr", applyOut: "p"},
@@ -825,6 +834,8 @@ type bposition struct {
 	apply    bool     // apply block: filters with applyText only
 	helpers  []string // built-in filters the snippet itself uses (not generated when one of them is the forbidden name)
 	spaced   bool     // the output passes through the spaceless tag
+	numeric  bool     // only usages whose value is a small integer fit
+	fnHelper string   // built-in function the snippet itself uses (not generated when it is the forbidden name)
 }
 
 var bpositions = []bposition{
@@ -856,6 +867,8 @@ var bpositions = []bposition{
 	{name: "for-sequence-kv", snippet: "{% for bk, bi in @X %}{{ bi }}{% endfor %}", out: "@V", kinds: "l", live: "live"},
 	{name: "for-body", snippet: "{% for bz in ['a', 'b'] %}@S(@X@){% endfor %}", out: "@V@V", kinds: "slo", live: "live"},
 	{name: "for-else", snippet: "{% for bz in [] %}n{% else %}@S(@X@){% endfor %}", out: "@V", kinds: "slo", live: "live"},
+	// an integer-valued usage as the bounds of the allowed range(…) standing as the sequence of a for loop: range(n, n) is [n]
+	{name: "for-bound", snippet: "{% for bi in range(@X, @X) %}{{ bi }}{% endfor %}", out: "@V", kinds: "s", live: "live", numeric: true, fnHelper: "range"},
 	{name: "apply", snippet: "{% apply @N %}@A{% endapply %}", kinds: "slo", live: "live", apply: true},
 	{name: "spaceless", snippet: "{% spaceless %}<a> @S(@X@) </a>  <b></b>{% endspaceless %}", out: "<a> @V </a>  <b></b>", kinds: "slo", live: "live", helpers: []string{"spaceless"}, spaced: true},
 	{name: "include-with", snippet: "{% include 'bleaf' with {'x': @X} %}", out: "L@V", kinds: "slo", live: "live"},
@@ -879,6 +892,12 @@ func (p bposition) fits(u usage) bool {
 		return false
 	}
 	if p.apply && (u.fn || u.applyText == "") {
+		return false
+	}
+	if p.numeric && !u.numeric {
+		return false
+	}
+	if u.fn && p.fnHelper == u.name {
 		return false
 	}
 	if !u.fn {
@@ -960,6 +979,9 @@ func runBuiltin(c bcas) *vlib.Outcome {
 	u, pos := usages[c.usage], bpositions[c.pos]
 	o := &vlib.Outcome{Counters: map[string]int64{}}
 	o.Counters[fmt.Sprintf("cases_builtin_depth%d", len(c.path))]++
+	if u.probed {
+		o.Counters[fmt.Sprintf("cases_builtin_probed_functions_depth%d", len(c.path))]++
+	}
 	routeNames := make([]string, len(c.path))
 	live := pos.live
 	for i, r := range c.path {
@@ -1056,6 +1078,99 @@ func runBuiltin(c bcas) *vlib.Outcome {
 	return o
 }
 
+// ---- functions found by probing: names the engine can call without a usage written for them above
+
+// The hand-written function usages name functions the engine registers in its function table. The
+// engine can dispatch more names than that (a fallback inside the evaluator serves some names itself:
+// count is one on the current tree), and which ones is a matter of the tree under test. So the names
+// are FOUND: every candidate name x argument shape is evaluated on a fresh engine without a sandbox;
+// a call that parses, renders without error, twice the same on two fresh engines, and gives a plain
+// scalar (alphanumeric text t, `(call) ~ 'x'` gives t + "x") is a function the engine can invoke, and a
+// policy that does not list the name forbids it like any other. Names that already have a hand-written
+// function usage are skipped. The expected value of such a usage is what the unsandboxed engine printed
+// (a metamorphic twin, confirmed again by the twin run and the unsandboxed renders of every case).
+var probeCandidates = []string{ // Twig's function names, the engine's filter names (count is both), common synonyms
+	"abs", "attribute", "batch", "capitalize", "column", "constant", "count", "cycle", "date", "default", "dump",
+	"e", "escape", "filter", "first", "format", "include", "join", "json_encode", "keys", "last", "len", "length",
+	"lower", "map", "max", "merge", "min", "nl2br", "number_format", "random", "range", "raw", "reduce", "replace",
+	"reverse", "round", "size", "sizeof", "slice", "sort", "source", "spaceless", "split", "striptags", "sum",
+	"template_from_string", "title", "trim", "upper", "url_encode",
+}
+
+var probeShapes = []struct{ id, args string }{
+	{"str", "('abcde')"}, {"list", "(['p', 'q', 'r'])"}, {"hash", "({'p': 1})"}, {"two", "(7, 9)"}, {"desc", "(55, 44)"}, {"none", "()"},
+}
+
+var plainScalar = regexp.MustCompile(`^[A-Za-z0-9]+$`)
+var smallInteger = regexp.MustCompile(`^(0|[1-9][0-9]?)$`)
+
+// probeCall evaluates the call on a fresh engine: the printed value, the value concatenated with 'x', its truth.
+func probeCall(expr string) (printed, concat, truth string, ok bool) {
+	defer func() {
+		if recover() != nil {
+			ok = false
+		}
+	}()
+	e := twig.New()
+	srcs := []string{"{{ " + expr + " }}", "{{ (" + expr + ") ~ 'x' }}", "{% if " + expr + " %}y{% else %}n{% endif %}"}
+	outs := make([]string, len(srcs))
+	for i, src := range srcs {
+		name := fmt.Sprint("probe", i)
+		if err := e.RegisterString(name, src); err != nil {
+			return "", "", "", false
+		}
+		out, err := e.Render(name, map[string]interface{}{})
+		if err != nil {
+			return "", "", "", false
+		}
+		outs[i] = out
+	}
+	return outs[0], outs[1], outs[2], true
+}
+
+var discoverOnce sync.Once
+var probedCallable []string // every candidate call that evaluates without error on a fresh engine (reported in the coverage)
+
+// discoverFunctions appends the probed usages to `usages` (once; the same in every worker: it depends on
+// the tree under test only).
+func discoverFunctions() {
+	discoverOnce.Do(func() {
+		written := map[string]bool{}
+		for _, u := range usages {
+			if u.fn {
+				written[u.name] = true
+			}
+		}
+		for _, name := range probeCandidates {
+			first := true
+			for _, sh := range probeShapes {
+				expr := name + sh.args
+				v, cat, truth, ok := probeCall(expr)
+				if !ok {
+					continue
+				}
+				probedCallable = append(probedCallable, expr)
+				if written[name] {
+					continue
+				}
+				v2, cat2, truth2, ok2 := probeCall(expr)
+				if !ok2 || v2 != v || cat2 != cat || truth2 != truth {
+					continue // not a function of its arguments alone
+				}
+				if !plainScalar.MatchString(v) || cat != v+"x" || (truth != "y" && truth != "n") {
+					continue // not a plain scalar: the positions could not show it
+				}
+				if len(v) < 3 && !strings.ContainsAny(v, "0123456789") {
+					continue // could be mistaken for a piece of the wrapper texts (x, L, y, n, d, iv)
+				}
+				usages = append(usages, usage{id: name + "." + sh.id, name: name, fn: true, expr: expr, kind: 's', out: v,
+					falsy: truth == "n", numeric: smallInteger.MatchString(v), probed: true, first: first})
+				first = false
+			}
+		}
+	})
+}
+
 // ---- enumeration
 
 func paths(depth int) [][]int {
@@ -1075,6 +1190,7 @@ func paths(depth int) [][]int {
 }
 
 func enumerate(t *vlib.T) {
+	discoverFunctions()
 	maxDepth, histDepth, biDepth := 2, 1, 2
 	if t.Thorough() {
 		maxDepth, histDepth, biDepth = 3, 2, 3
@@ -1133,6 +1249,9 @@ func enumerate(t *vlib.T) {
 						if depth == 3 && !u.fn && u.kind != 'l' {
 							continue // depth 3: functions and list-valued filter usages (what can stand directly as a for sequence)
 						}
+						if depth == 3 && u.probed && !u.first {
+							continue // depth 3: one argument shape per probed name
+						}
 						for b := range boundaries {
 							if b != 0 && (depth == 3 || (depth == 2 && !t.Thorough())) {
 								continue
@@ -1187,8 +1306,10 @@ func main() {
 			"History family (keys hist/…): on ONE engine the policy alternates between allowing and forbidding the name (orders AFAF and FAF) by in-place edit of the installed DefaultSecurityPolicy maps, by EnableSandbox(another policy) and by a stateful hand-written policy, " +
 			"over every position x form x route composition up to depth 1 quick / 2 thorough; non-trivial when a render in the allowing state invokes the callback from inside. " +
 			"Built-in family (keys bi/…): the policy is the default policy minus ONE of the engine's own built-ins (functions range, cycle, date, min, max, length, merge, random; filters default, join, length, slice, first, last, keys, merge, sort, reverse, escape, raw, spaceless — 23 usages with literal arguments and recognisable results, nothing re-registered) " +
-			"and that built-in stands in every one of 38 positions where its value fits (752 usage x position pairs) (list-valued usages directly as the sequence of a for loop, also parenthesised, with else, with key and value, nested, behind ok(…), default(…), a ternary, a hash; every usage as condition, set value, argument, chain link, apply) x every route composition up to depth 2 quick / 3 thorough; " +
-			"observed through the output of RenderTo: the render must fail with a security violation and nothing of the built-in's result may have been written behind the boundary; non-trivial when the position is evaluated (live position, or the run was refused)",
+			"and that built-in stands in every one of 39 positions where its value fits (954 usage x position pairs with the probed usages below) (list-valued usages directly as the sequence of a for loop, also parenthesised, with else, with key and value, nested, behind ok(…), default(…), a ternary, a hash; every usage as condition, set value, argument, chain link, apply) x every route composition up to depth 2 quick / 3 thorough; " +
+			"observed through the output of RenderTo: the render must fail with a security violation and nothing of the built-in's result may have been written behind the boundary; non-trivial when the position is evaluated (live position, or the run was refused). " +
+			"The function usages of that family are extended by PROBING the tree under test: every candidate name (Twig's function names, the engine's filter names, common synonyms: 52 names) x argument shape (a string, a list, a hash, two ascending numbers, two descending numbers, none) is evaluated on a fresh engine without a sandbox; every call that evaluates without error, deterministically, to a plain scalar and whose name has no hand-written usage becomes a usage of its own (on the current tree: count, which the evaluator serves itself without a registered function, with a string, a list and a hash; json_encode with two numbers) " +
+			"and stands in every fitting position x route composition like the others (depth 3: the first argument shape of each name); its expected value is what the unsandboxed engine printed. Position for-bound: every integer-valued usage as both bounds of an allowed range(…) standing as the sequence of a for loop",
 		Assumptions: []string{
 			"whether calling a macro or parent() is a function call in the sense of the policy is not fixed by the statement: those names are always on the allow-lists (except under deny-all, where only 'never invoked' and 'errors are security violations' are demanded)",
 			"macro default expressions: whether they are evaluated is not fixed; only 'never invoked' and 'errors are security violations' are demanded there",
@@ -1196,9 +1317,21 @@ func main() {
 			"tags are not part of this property (IsTagAllowed always answers true in the hand-written policies)",
 			"receiver-style calls recv.name(…): the statement does not say they are calls of the function `name`; the control run decides per case (where it does not invoke the callback the case is recorded as trivial and nothing is demanded)",
 			"'the engine's security policy' is read as the policy in force when the render happens: the object last passed to EnableSandbox with the answers it gives during that render",
+			"probed function usages: only calls that evaluate to a plain alphanumeric scalar, the same on two fresh engines, are generated (dump(…) prints Go syntax, date() and random() depend on the moment: not generated beyond their hand-written usages); the expected value is the one the unsandboxed engine gives, not a model of the function",
 			"built-in family: the spaceless TAG is not taken for an application of the spaceless filter (not generated as a position of the forbidden filter spaceless); positions whose own helper filter (default, join, length) is the forbidden name are not generated; what RenderTo has written before a refused render is only inspected, never demanded",
 		},
-		QuickDeadline: 100, ThoroughDeadline: 840,
+		QuickDeadline: 120, ThoroughDeadline: 840,
 		Run: enumerate,
+		Extra: func(tier string, cov map[string]interface{}) {
+			discoverFunctions()
+			var ids []string
+			for _, u := range usages {
+				if u.probed {
+					ids = append(ids, u.expr+" = "+u.out)
+				}
+			}
+			cov["function_calls_evaluating_on_a_fresh_engine"] = probedCallable
+			cov["probed_function_usages_added_to_the_builtin_family"] = ids
+		},
 	})
 }
